@@ -33,7 +33,7 @@ class Runtime:
         self.suspend = suspend
         self.foreign_ctx = 0
         self.type_calls = 0
-        self.shared_exc = None
+        self.shared = None  # dict shared by the requests of a batch (one exception instance for all)
         self.override = None  # path -> raw value (C03: adversarial results)
 
 
@@ -95,9 +95,10 @@ def make_resolver(coord):
             if kind == "raise_tf":
                 raise UserError(tf[0], extensions=dict(tf[1]))
             if kind == "raise_shared":
-                if rt.shared_exc is None:
-                    rt.shared_exc = UserError("shared " + tok)
-                raise rt.shared_exc
+                pool = rt.shared if rt.shared is not None else rt.__dict__.setdefault("_own_shared", {})
+                if "exc" not in pool:
+                    pool["exc"] = UserError("shared application error")
+                raise pool["exc"]
             raise FaultError(tok)
         return outcome[1]
 
